@@ -15,6 +15,7 @@ verus! {
 //@@ INCLUDE lib/sign.rs
 //@@ INCLUDE lib/mul_lemmas.rs
 //@@ INCLUDE lib/mulalg_stubs.rs
+//@@ INCLUDE lib/mulalg_core_lemmas.rs
 //@@ INCLUDE lib/mulalg_lemmas.rs
 pub mod add {
 use super::*;
